@@ -63,9 +63,18 @@ struct Ctx {
     nshards: u64,
     shard_idx: u64,
     item: u64,
+    nt_mod: u64,
 }
 
 impl Ctx {
+    /// Distinct non-trivial cases are recorded for a hash-selected subsample (1/4 quick,
+    /// 1/64 thorough) to keep shard files small: `distinct_nontrivial` is a lower bound.
+    fn note_nontrivial(&mut self, h: u64) {
+        if mix(h) % self.nt_mod == 0 {
+            self.rep.nontrivial(h);
+        }
+    }
+
     /// partition of enumerated work items over the shards of one run
     fn mine(&mut self) -> bool {
         let j = self.item;
@@ -148,7 +157,7 @@ impl Ctx {
             self.codecs[codec] = self.corpus.specs[codec].build();
         }
         if tr.deep {
-            self.rep.nontrivial(fnv64(input) ^ mix(codec as u64 + 1));
+            self.note_nontrivial(fnv64(input) ^ mix(codec as u64 + 1));
             self.rep.count("nontrivial:bgp");
         }
         match &tr.term {
@@ -207,7 +216,7 @@ impl Ctx {
         self.rep.eval();
         self.absorb(tr, decoder, 0, origin, input, cuts);
         if tr.deep {
-            self.rep.nontrivial(fnv64(input) ^ mix(fnv64(decoder.as_bytes())));
+            self.note_nontrivial(fnv64(input) ^ mix(fnv64(decoder.as_bytes())));
             self.rep.count(if decoder == "rtr" { "nontrivial:rtr" } else { "nontrivial:bfd" });
         }
     }
@@ -1073,7 +1082,9 @@ fn main() {
     let params = Params::from_args_env();
     let rule = "case = one byte string delivered to one decoder under one negotiated codec in one fragmentation; \
                 non-trivial = the input got past the framing header checks (BGP: a complete frame with 19 <= L <= max reached the body parser; \
-                RTR: a complete 8-byte header was examined; BFD: len >= 24 and length field == len); distinct by hash of (input bytes, codec / decoder)";
+                RTR: a complete 8-byte header was examined; BFD: len >= 24 and length field == len); distinct by hash of (input bytes, codec / decoder), \
+                recorded for a hash-selected subsample (1/4 at quick, 1/64 at thorough, all under Miri) so distinct_nontrivial is a lower bound; \
+                counters nontrivial:bgp / nontrivial:rtr / nontrivial:bfd count every non-trivial evaluation";
     let mut rep = Report::new("C03", &params);
     rep.extra("rule", Json::s(rule));
     rep.extra("profile", Json::s(profile()));
@@ -1109,6 +1120,7 @@ fn main() {
         nshards,
         shard_idx: shard_idx % nshards,
         item: 0,
+        nt_mod: if params.scale < 0.01 { 1 } else if params.thorough() { 64 } else { 4 },
     };
 
     // watchdog: a decoder call that does not return is a harness-level timeout
